@@ -2,7 +2,7 @@
    their own protocol, and every operation other than Next / ReadValue /
    FinishValue / the lob readers leaves [token] and [unfinished] alone. *)
 From Coq Require Import String List NArith ZArith Bool Lia.
-From IonV Require Import Base.Wire Text.Tokenizer Text.Skipper.
+From IonV Require Import Base.Wire Base.Utf8 Text.Tokenizer Text.Skipper.
 Import ListNotations.
 Open Scope Z_scope.
 
@@ -130,6 +130,9 @@ Qed.
 Lemma tframe_hex_escape : forall n v, tframe (read_hex_escape_seq n v).
 Proof. induction n; intros; cbn [read_hex_escape_seq]; tf. Qed.
 #[export] Hint Resolve tframe_hex_escape : tfr.
+Lemma tframe_surrogate_pair hi : tframe (read_surrogate_pair hi).
+Proof. unfold read_surrogate_pair; tf. Qed.
+#[export] Hint Resolve tframe_surrogate_pair : tfr.
 Lemma tframe_escaped_char k : tframe (read_escaped_char k).
 Proof. unfold read_escaped_char; tf. Qed.
 #[export] Hint Resolve tframe_escaped_char : tfr.
@@ -142,6 +145,12 @@ Proof. induction f; intros; cbn [read_radix_digits]; tf. Qed.
 Lemma tframe_read_digits c w : tframe (read_digits c w).
 Proof. unfold read_digits; tf. Qed.
 #[export] Hint Resolve tframe_read_digits : tfr.
+Lemma tframe_plain_digits_loop : forall f c w, tframe (read_plain_digits_loop f c w).
+Proof. induction f; intros; cbn [read_plain_digits_loop]; tf. Qed.
+#[export] Hint Resolve tframe_plain_digits_loop : tfr.
+Lemma tframe_plain_digits c w : tframe (read_plain_digits c w).
+Proof. unfold read_plain_digits; tf. Qed.
+#[export] Hint Resolve tframe_plain_digits : tfr.
 Lemma tframe_read_exponent w : tframe (read_exponent w).
 Proof. unfold read_exponent; tf. Qed.
 #[export] Hint Resolve tframe_read_exponent : tfr.
@@ -174,6 +183,9 @@ Proof. unfold read_timestamp; tf. Qed.
 Lemma tframe_read_while : forall f p w, tframe (read_while f p w).
 Proof. induction f; intros; cbn [read_while]; tf. Qed.
 #[export] Hint Resolve tframe_read_while : tfr.
+Lemma tframe_check_utf8 v : tframe (check_utf8 v).
+Proof. unfold check_utf8; tf. Qed.
+#[export] Hint Resolve tframe_check_utf8 : tfr.
 Lemma tframe_quoted_symbol_loop : forall f w, tframe (read_quoted_symbol_loop f w).
 Proof. induction f; intros; cbn [read_quoted_symbol_loop]; tf. Qed.
 #[export] Hint Resolve tframe_quoted_symbol_loop : tfr.
@@ -183,7 +195,7 @@ Proof. induction f; intros; cbn [read_string_loop]; tf. Qed.
 Lemma tframe_clob_loop : forall f w, tframe (read_clob_loop f w).
 Proof. induction f; intros; cbn [read_clob_loop]; tf. Qed.
 #[export] Hint Resolve tframe_clob_loop : tfr.
-Lemma tframe_long_string_loop : forall f w, tframe (read_long_string_loop f w).
+Lemma tframe_long_string_loop : forall f w seg, tframe (read_long_string_loop f w seg).
 Proof. induction f; intros; cbn [read_long_string_loop]; tf. Qed.
 #[export] Hint Resolve tframe_long_string_loop : tfr.
 Lemma tframe_long_clob_loop : forall f w, tframe (read_long_clob_loop f w).
@@ -246,8 +258,11 @@ Proof. unfold skip_string_helper; tf. Qed.
 Lemma tframe_skip_long_string_helper h : tframe (skip_long_string_helper h).
 Proof. unfold skip_long_string_helper; tf. Qed.
 #[export] Hint Resolve tframe_skip_symbol_quoted_helper tframe_skip_string_helper tframe_skip_long_string_helper : tfr.
+Lemma tframe_skip_container_loop : forall f top terms, tframe (skip_container_loop f top terms).
+Proof. induction f; intros; cbn [skip_container_loop]; tf. Qed.
+#[export] Hint Resolve tframe_skip_container_loop : tfr.
 Lemma tframe_skip_container_helper : forall f term, tframe (skip_container_helper f term).
-Proof. induction f; intros; cbn [skip_container_helper]; tf. Qed.
+Proof. intros; unfold skip_container_helper; tf. Qed.
 #[export] Hint Resolve tframe_skip_container_helper : tfr.
 Lemma tframe_skip_container_contents c : tframe (t_skip_container_contents c).
 Proof. unfold t_skip_container_contents, t_skip_container_helper; tf. Qed.
@@ -626,3 +641,238 @@ Proof.
 Qed.
 Lemma tk_no_panic inp ioerr ops : tk_run ops (t_init inp ioerr) <> Panic.
 Proof. apply tk_run_no_panic. intros U. discriminate. Qed.
+
+(* ---- UTF-8: concatenation, ASCII, and the texts ReadValue returns ------------------------------------------------ *)
+Local Open Scope N_scope.
+Ltac brk :=
+  repeat match goal with
+         | |- context [if ?b then _ else _] => destruct b eqn:?
+         | |- context [match ?r with [] => _ | _ :: _ => _ end] => destruct r
+         end.
+
+Definition utf8_body (rec : list N -> bool) (c : N) (r : list N) : bool :=
+  if c <? 128 then rec r
+  else if in_range 194 223 c then
+    match r with c1 :: r' => cont c1 && rec r' | _ => false end
+  else if c =? 224 then
+    match r with c1 :: c2 :: r' => in_range 160 191 c1 && cont c2 && rec r' | _ => false end
+  else if in_range 225 236 c || in_range 238 239 c then
+    match r with c1 :: c2 :: r' => cont c1 && cont c2 && rec r' | _ => false end
+  else if c =? 237 then
+    match r with c1 :: c2 :: r' => in_range 128 159 c1 && cont c2 && rec r' | _ => false end
+  else if c =? 240 then
+    match r with c1 :: c2 :: c3 :: r' => in_range 144 191 c1 && cont c2 && cont c3 && rec r' | _ => false end
+  else if in_range 241 243 c then
+    match r with c1 :: c2 :: c3 :: r' => cont c1 && cont c2 && cont c3 && rec r' | _ => false end
+  else if c =? 244 then
+    match r with c1 :: c2 :: c3 :: r' => in_range 128 143 c1 && cont c2 && cont c3 && rec r' | _ => false end
+  else false.
+Lemma utf8_step f c r : utf8_valid_fuel (S f) (c :: r) = utf8_body (utf8_valid_fuel f) c r.
+Proof. reflexivity. Qed.
+(* the body only calls [rec] on suffixes that are at least one byte shorter *)
+Lemma utf8_body_ext (g h : list N -> bool) c r :
+  (forall r', (length r' <= length r)%nat -> g r' = h r') -> utf8_body g c r = utf8_body h c r.
+Proof.
+  intros H. unfold utf8_body.
+  repeat match goal with |- (if ?b then _ else _) = (if ?b then _ else _) => destruct b end; try reflexivity.
+  - apply H; lia.
+  - destruct r as [|c1 r']; [reflexivity|]. rewrite H by (cbn; lia). reflexivity.
+  - destruct r as [|c1 [|c2 r']]; try reflexivity. rewrite H by (cbn; lia). reflexivity.
+  - destruct r as [|c1 [|c2 r']]; try reflexivity. rewrite H by (cbn; lia). reflexivity.
+  - destruct r as [|c1 [|c2 r']]; try reflexivity. rewrite H by (cbn; lia). reflexivity.
+  - destruct r as [|c1 [|c2 [|c3 r']]]; try reflexivity. rewrite H by (cbn; lia). reflexivity.
+  - destruct r as [|c1 [|c2 [|c3 r']]]; try reflexivity. rewrite H by (cbn; lia). reflexivity.
+  - destruct r as [|c1 [|c2 [|c3 r']]]; try reflexivity. rewrite H by (cbn; lia). reflexivity.
+Qed.
+
+(* enough fuel is enough *)
+Lemma utf8_fuel_S : forall f l, (length l <= f)%nat -> utf8_valid_fuel (S f) l = utf8_valid_fuel f l.
+Proof.
+  induction f as [|f IH]; intros l Hl.
+  - destruct l; [reflexivity|cbn in Hl; lia].
+  - destruct l as [|c r]; [reflexivity|].
+    cbn [length] in Hl. rewrite !utf8_step. apply utf8_body_ext. intros r' Hr. apply IH. lia.
+Qed.
+Lemma utf8_fuel_ge : forall k f l, (length l <= f)%nat -> utf8_valid_fuel (k + f) l = utf8_valid_fuel f l.
+Proof.
+  induction k as [|k IH]; intros f l Hl; [reflexivity|].
+  cbn [Nat.add]. rewrite utf8_fuel_S by lia. apply IH; exact Hl.
+Qed.
+Lemma utf8_valid_fuel_eq f l : (length l <= f)%nat -> utf8_valid_fuel f l = utf8_valid l.
+Proof.
+  intros Hl. unfold utf8_valid. replace f with ((f - length l) + length l)%nat by lia.
+  apply utf8_fuel_ge. lia.
+Qed.
+
+(* the concatenation of two valid texts is valid *)
+Lemma utf8_app_fuel : forall f a b, (length a <= f)%nat ->
+  utf8_valid_fuel f a = true -> utf8_valid b = true -> utf8_valid (a ++ b) = true.
+Proof.
+  induction f as [|f IH]; intros a b Ha Va Vb.
+  - destruct a; [exact Vb|cbn in Ha; lia].
+  - destruct a as [|c r]; [exact Vb|].
+    cbn [length] in Ha. rewrite <- (utf8_valid_fuel_eq (S (length (r ++ b))) ((c :: r) ++ b)) by (cbn; lia).
+    cbn [app]. rewrite utf8_step in *.
+    assert (Hk : forall r', (length r' <= f)%nat -> (length (r' ++ b) <= length (r ++ b))%nat ->
+              utf8_valid_fuel f r' = true -> utf8_valid_fuel (length (r ++ b)) (r' ++ b) = true).
+    { intros r' L1 L2 V. rewrite utf8_valid_fuel_eq by exact L2. apply (IH r' b L1 V Vb). }
+    revert Va. unfold utf8_body.
+    repeat match goal with |- (if ?x then _ else _) = true -> (if ?x then _ else _) = true => destruct x end;
+      try discriminate.
+    + intros V. apply Hk; [lia|lia|exact V].
+    + destruct r as [|c1 r']; [discriminate|]. cbn [app]. intros V. apply andb_prop in V. destruct V as [V1 V2].
+      rewrite V1. cbn [andb]. apply Hk; [cbn in Ha; lia|cbn; rewrite !app_length; lia|exact V2].
+    + destruct r as [|c1 [|c2 r']]; try discriminate. cbn [app]. intros V.
+      apply andb_prop in V. destruct V as [V1 V2]. rewrite V1. cbn [andb].
+      apply Hk; [cbn in Ha; lia|cbn; rewrite !app_length; lia|exact V2].
+    + destruct r as [|c1 [|c2 r']]; try discriminate. cbn [app]. intros V.
+      apply andb_prop in V. destruct V as [V1 V2]. rewrite V1. cbn [andb].
+      apply Hk; [cbn in Ha; lia|cbn; rewrite !app_length; lia|exact V2].
+    + destruct r as [|c1 [|c2 r']]; try discriminate. cbn [app]. intros V.
+      apply andb_prop in V. destruct V as [V1 V2]. rewrite V1. cbn [andb].
+      apply Hk; [cbn in Ha; lia|cbn; rewrite !app_length; lia|exact V2].
+    + destruct r as [|c1 [|c2 [|c3 r']]]; try discriminate. cbn [app]. intros V.
+      apply andb_prop in V. destruct V as [V1 V2]. rewrite V1. cbn [andb].
+      apply Hk; [cbn in Ha; lia|cbn; rewrite !app_length; lia|exact V2].
+    + destruct r as [|c1 [|c2 [|c3 r']]]; try discriminate. cbn [app]. intros V.
+      apply andb_prop in V. destruct V as [V1 V2]. rewrite V1. cbn [andb].
+      apply Hk; [cbn in Ha; lia|cbn; rewrite !app_length; lia|exact V2].
+    + destruct r as [|c1 [|c2 [|c3 r']]]; try discriminate. cbn [app]. intros V.
+      apply andb_prop in V. destruct V as [V1 V2]. rewrite V1. cbn [andb].
+      apply Hk; [cbn in Ha; lia|cbn; rewrite !app_length; lia|exact V2].
+Qed.
+Lemma utf8_app a b : utf8_valid a = true -> utf8_valid b = true -> utf8_valid (a ++ b) = true.
+Proof. intros Va Vb. apply (utf8_app_fuel (length a) a b); auto. Qed.
+
+(* ASCII is UTF-8 *)
+Lemma utf8_ascii : forall l, forallb (fun c : N => (c <? 128)%N) l = true -> utf8_valid l = true.
+Proof.
+  unfold utf8_valid. induction l as [|c r IH]; [reflexivity|].
+  cbn [forallb length utf8_valid_fuel]. intros H. apply andb_prop in H. destruct H as [H1 H2].
+  rewrite H1. apply IH, H2.
+Qed.
+
+
+(* ---- the texts the tokenizer returns are UTF-8 ---------------------------------------------------------------------- *)
+Definition valid_out (m : M (list N)) : Prop :=
+  forall t, match m t with Ok (v, _) => utf8_valid v = true | _ => True end.
+Lemma valid_out_bind {A} (m : M A) (k : A -> M (list N)) : (forall a, valid_out (k a)) -> valid_out (mbind m k).
+Proof. intros H t. unfold mbind. destruct (m t) as [[a t1]| | |]; auto. apply H. Qed.
+Lemma valid_out_fail : valid_out fail. Proof. intro t; exact I. Qed.
+Lemma valid_out_nofuel : valid_out nofuel. Proof. intro t; exact I. Qed.
+Lemma valid_out_check v : valid_out (check_utf8 v).
+Proof. intro t. unfold check_utf8. destruct (utf8_valid v) eqn:E; [exact E|exact I]. Qed.
+
+Ltac vo IH :=
+  repeat first
+    [ apply valid_out_fail | apply valid_out_nofuel | apply valid_out_check | apply IH
+    | apply valid_out_bind; intros
+    | progress cbn beta
+    | match goal with
+      | |- valid_out (if ?b then _ else _) => destruct b
+      | |- valid_out (let '(_, _) := ?p in _) => destruct p
+      end ].
+
+Lemma valid_string_loop : forall f w, valid_out (read_string_loop f w).
+Proof. induction f as [|f IH]; intros w; cbn [read_string_loop]; vo IH. Qed.
+Lemma valid_quoted_symbol_loop : forall f w, valid_out (read_quoted_symbol_loop f w).
+Proof. induction f as [|f IH]; intros w; cbn [read_quoted_symbol_loop]; vo IH. Qed.
+
+(* the end of a long string is always reported together with "consumed" *)
+Lemma end_is_consumed h t e c t' : t_skip_end_of_long_string h t = Ok ((e, c), t') -> e = true -> c = true.
+Proof.
+  unfold t_skip_end_of_long_string, mbind.
+  destruct (t_peekN 2 t) as [[[cs eof] t1]| | |]; try discriminate.
+  match goal with |- (if ?b then _ else _) _ = _ -> _ => destruct b end.
+  - unfold ret. intros E; injection E as <- _ _. discriminate.
+  - destruct (t_skipN 2 t1) as [[u t2]| | |]; try discriminate.
+    destruct (t_skip_whitespace_h h t2) as [[[c0 s0] t3]| | |]; try discriminate.
+    destruct ((if (c0 =? c_quote)%Z then t_is_triple_quote else ret false) t3) as [[again t4]| | |]; try discriminate.
+    destruct again.
+    + unfold ret. intros E; injection E as <- _ _. discriminate.
+    + destruct (t_unread c0 t4) as [[u2 t5]| | |]; try discriminate.
+      unfold ret. intros E; injection E as _ <- _. reflexivity.
+Qed.
+Lemma valid_long_string_loop : forall f w seg,
+  utf8_valid (rev w) = true -> valid_out (read_long_string_loop f w seg).
+Proof.
+  induction f as [|f IH]; intros w seg Vw; cbn [read_long_string_loop]; [apply valid_out_nofuel|].
+  apply valid_out_bind; intros c.
+  match goal with |- valid_out (if ?b then _ else _) => destruct b end; [apply valid_out_fail|].
+  destruct (c =? c_quote)%Z.
+  - intros t. unfold mbind. destruct (t_skip_end_of_long_string HSkipComments t) as [[[e cns] t1]| | |] eqn:E; auto.
+    pose proof (end_is_consumed _ _ _ _ _ E) as Hc.
+    destruct cns.
+    + destruct (utf8_valid (rev seg)) eqn:Vs; cbn [negb]; [|exact I].
+      assert (Vall : utf8_valid (rev (seg ++ w)) = true) by (rewrite rev_app_distr; apply utf8_app; assumption).
+      destruct e; [exact Vall|]. apply IH. exact Vall.
+    + destruct e; [specialize (Hc eq_refl); discriminate|]. apply IH. exact Vw.
+  - destruct (c =? c_bslash)%Z; [apply valid_out_bind; intros bs|]; apply IH; exact Vw.
+Qed.
+
+(* identifiers and operators are ASCII *)
+Lemma valid_read_while : forall f p (w : list N),
+  (forall c, p c = true -> (0 <= c < 128)%Z) ->
+  forallb (fun c : N => (c <? 128)%N) w = true ->
+  forall t, match read_while f p w t with Ok (v, _) => forallb (fun c : N => (c <? 128)%N) v = true | _ => True end.
+Proof.
+  induction f as [|f IH]; intros p w Hp Hw t; cbn [read_while]; [exact I|].
+  unfold mbind. destruct (t_peek t) as [[c t1]| | |]; auto.
+  destruct (p c) eqn:P.
+  - destruct (t_read t1) as [[c' t2]| | |]; auto. apply IH; [exact Hp|].
+    cbn [forallb]. rewrite Hw, andb_true_r. specialize (Hp c P). unfold byte_of.
+    rewrite Z.mod_small by lia. apply N.ltb_lt. lia.
+  - unfold ret. rewrite forallb_forall in *. intros x Hx. apply Hw. rewrite in_rev. exact Hx.
+Qed.
+Lemma ident_ascii c : is_identifier_part c = true -> (0 <= c < 128)%Z.
+Proof.
+  unfold is_identifier_part, is_identifier_start, is_digit. intros H.
+  repeat match goal with
+         | H : (_ || _)%bool = true |- _ => apply orb_true_iff in H; destruct H as [H|H]
+         | H : (_ && _)%bool = true |- _ => apply andb_prop in H; destruct H
+         | H : (_ <=? _)%Z = true |- _ => apply Z.leb_le in H
+         | H : (_ =? _)%Z = true |- _ => apply Z.eqb_eq in H
+         end; lia.
+Qed.
+Lemma operator_ascii c : is_operator_char c = true -> (0 <= c < 128)%Z.
+Proof.
+  unfold is_operator_char, zmem. cbn [existsb]. intros H.
+  repeat (apply orb_true_iff in H; destruct H as [H|H]; [apply Z.eqb_eq in H; lia|]). discriminate.
+Qed.
+Lemma valid_read_symbol : valid_out read_symbol.
+Proof.
+  intros t. unfold read_symbol, with_fuel.
+  pose proof (valid_read_while (t_fuel t) is_identifier_part [] ident_ascii eq_refl t) as H.
+  destruct (read_while (t_fuel t) is_identifier_part [] t) as [[v t1]| | |]; auto. apply utf8_ascii, H.
+Qed.
+Lemma valid_read_operator : valid_out read_operator.
+Proof.
+  intros t. unfold read_operator, with_fuel.
+  pose proof (valid_read_while (t_fuel t) is_operator_char [] operator_ascii eq_refl t) as H.
+  destruct (read_while (t_fuel t) is_operator_char [] t) as [[v t1]| | |]; auto. apply utf8_ascii, H.
+Qed.
+
+(* ReadValue on a symbol or string token *)
+Definition textual (k : N) : bool :=
+  existsb (N.eqb k) [tokenSymbol; tokenSymbolQuoted; tokenSymbolOperator; tokenDot; tokenString; tokenLongString].
+Lemma valid_read_value k : textual k = true -> valid_out (t_read_value k).
+Proof.
+  intros Hk t. unfold t_read_value, mbind.
+  match goal with |- match match ?m t with _ => _ end with _ => _ end =>
+    assert (Hm : valid_out m); [ | specialize (Hm t); destruct (m t) as [[v t1]| | |]; auto ] end.
+  unfold textual in Hk. cbn [existsb] in Hk.
+  repeat match goal with |- valid_out (if ?b then _ else _) => destruct b eqn:? end.
+  - apply valid_read_symbol.
+  - unfold read_quoted_symbol. intros t0. apply valid_quoted_symbol_loop.
+  - apply valid_read_operator.
+  - unfold read_string. intros t0. apply valid_string_loop.
+  - unfold read_long_string. intros t0. apply valid_long_string_loop. reflexivity.
+  - exfalso. repeat match goal with H : (_ || _)%bool = false |- _ => apply orb_false_elim in H; destruct H end.
+    repeat match goal with H : (_ =? _)%N = false |- _ => rewrite H in Hk; clear H end. discriminate.
+  - exfalso. repeat match goal with H : (_ || _)%bool = false |- _ => apply orb_false_elim in H; destruct H end.
+    repeat match goal with H : (_ =? _)%N = false |- _ => rewrite H in Hk; clear H end. discriminate.
+  - exfalso. repeat match goal with H : (_ || _)%bool = false |- _ => apply orb_false_elim in H; destruct H end.
+    repeat match goal with H : (_ =? _)%N = false |- _ => rewrite H in Hk; clear H end. discriminate.
+  - exfalso. repeat match goal with H : (_ || _)%bool = false |- _ => apply orb_false_elim in H; destruct H end.
+    repeat match goal with H : (_ =? _)%N = false |- _ => rewrite H in Hk; clear H end. discriminate.
+Qed.
